@@ -670,13 +670,19 @@ func runHistory(w *harness.W, c hcase, sample bool) {
 		w.Violation(key, fmt.Sprintf("op %d (%s): %s; log %s", i, c.Ops[i].Kind+c.Ops[i].Cmd+c.Ops[i].Mouse, what, logString(got)), c, logString(got), want)
 	}
 	for i, o := range c.Ops {
-		if o.Kind == "cmd" && strings.HasPrefix(o.Cmd, "focus") && !m.inTree(o.ID) {
-			// focusing a widget that is not drawn: its ancestors are undefined
-			w.Count("skipped_focus_of_undrawn_widget", 1)
-			continue
-		}
 		var want []exp
 		var tolerated map[int]bool
+		// a widget that is not in the last frame may hold the focus until the
+		// next frame (a dialog's input focused when the dialog is opened):
+		// its ancestors are undefined, but it is the target of key events
+		undrawnFocus := !m.inTree(m.focused)
+		rootID := 0
+		if c.AppRoot != nil {
+			rootID = appRootID
+		}
+		if o.Kind == "cmd" && strings.HasPrefix(o.Cmd, "focus") && !m.inTree(o.ID) {
+			w.Count("focus_given_to_a_widget_that_is_not_drawn", 1)
+		}
 		bytes0 := e.bytes()
 		draws0 := e.draws()
 		needFrame := false
@@ -685,9 +691,15 @@ func runHistory(w *harness.W, c hcase, sample bool) {
 		case "key":
 			e.app.PostEvent(vaxis.Key{Keycode: 'x', Text: "x"})
 			want = m.route(m.chain(m.focused), "key")
+			if undrawnFocus {
+				want = m.route([]int{rootID, m.focused}, "key")
+			}
 		case "custom":
 			e.app.PostEvent(evCustom{i})
 			want = m.route(m.chain(m.focused), "custom")
+			if undrawnFocus {
+				want = m.route([]int{rootID, m.focused}, "custom")
+			}
 		case "mouse":
 			et := vaxis.EventMotion
 			btn := vaxis.MouseNoButton
@@ -854,6 +866,9 @@ func runHistory(w *harness.W, c hcase, sample bool) {
 				// hover follows the new layout: not modelled step by step, only alternation
 				w.Count("relayouts_with_pointer_inside", 1)
 			}
+		}
+		if undrawnFocus && (o.Kind == "key" || o.Kind == "custom") {
+			w.Count("events_routed_to_a_focused_widget_that_is_not_drawn", 1)
 		}
 		if d := match(m, routed, want, tolerated, map[bool]string{true: "mouse", false: "key"}[o.Kind == "mouse"]); d != "" {
 			var ws []string
